@@ -10,7 +10,7 @@ use vbase::{ensure, fail};
 
 use crate::lazyhelp::{gen_skip_stress, to_pointer};
 
-pub const RULE: &str = "cases are (input bytes, path set) pairs: the paths are valid paths of a generated well-formed document (plus fixed short paths), the input is that document after one or two random mutations (truncation, substitution, insertion, deletion, duplication, UTF-8 damage, escape damage, number damage, separator damage), or — in the sweeps — every truncation, every per-position substitution by each of 23 bytes and every deletion of a set of documents; long number literals (1..=200 integer digits x fraction lengths) with every tail of a damage set as skipped and as returned member; strings and keys carrying invalid UTF-8 at varying distance from the start. Each pair goes through checked get over &[u8]/&str/&Bytes/&FastStr and get_from_*, get_many, get_by_schema, to_array_iter and to_object_iter over &[u8]/&str/&String/&Bytes/&FastStr. Whenever a value is returned its raw text must lie inside the input, be UTF-8, be exactly one well-formed JSON value without surrounding whitespace, and input[..end of value] must be a prefix of a well-formed UTF-8 JSON text (so every member, key and separator traversed before it was well-formed). Non-trivial = malformed input with a path of length >= 1; distinct by (input, path).";
+pub const RULE: &str = "cases are (input bytes, path set) pairs: the paths are valid paths of a generated well-formed document (plus fixed short paths), the input is that document after one or two random mutations (truncation, substitution, insertion, deletion, duplication, UTF-8 damage, escape damage, number damage, separator damage), or — in the sweeps — every truncation, every per-position substitution by each of 23 bytes and every deletion of a set of documents; long number literals (1..=200 integer digits x fraction lengths) with every tail of a damage set as skipped and as returned member; strings and keys carrying invalid UTF-8 at varying distance from the start; member names whose escapes were replaced in place by the raw character (quote, line feed, tab, control) while the path names the member by its decoded text; items reached through nth / skip / step_by. Each pair goes through checked get over &[u8]/&str/&Bytes/&FastStr and get_from_*, get_many, get_by_schema, to_array_iter and to_object_iter over &[u8]/&str/&String/&Bytes/&FastStr. Whenever a value is returned its raw text must lie inside the input, be UTF-8, be exactly one well-formed JSON value without surrounding whitespace, and input[..end of value] must be a prefix of a well-formed UTF-8 JSON text (so every member, key and separator traversed before it was well-formed). Non-trivial = malformed input with a path of length >= 1; distinct by (input, path).";
 pub const ASSUMPTIONS: &[&str] = &["refjson scanner and prefix rule", "bytes after the returned value are not required to be valid (statement)"];
 
 fn split_case(case: &[u8]) -> Option<(&[u8], &[u8])> {
@@ -244,6 +244,29 @@ pub fn oracle(case: &[u8], obs: &mut Obs) -> Result<(), Fail> {
         }
     }
 
+    // items reached through nth / skip (members stepped over without being yielded) are sound fragments too
+    for k in 1..=3usize {
+        if let Some(Ok(lv)) = sonic_rs::to_array_iter(input).nth(k) {
+            let raw = lv.as_raw_str();
+            check_fragment("to_array_iter(&[u8]).nth", input, raw.as_bytes(), off_in(input, raw), &format!("nth({k})"))?;
+        }
+        if let Some(Ok(lv)) = sonic_rs::to_array_iter(&by).skip(k).next() {
+            check_fragment("to_array_iter(&Bytes).skip", input, lv.as_raw_str().as_bytes(), None, &format!("skip({k})"))?;
+        }
+        if let Some(Ok((key, lv))) = sonic_rs::to_object_iter(input).nth(k) {
+            ensure!(std::str::from_utf8(key.as_bytes()).is_ok(), "C14/iter/fragment-not-utf8", "to_object_iter(&[u8]).nth({k}) on {:?}: the key is not valid UTF-8", show_bytes(input, 300));
+            let raw = lv.as_raw_str();
+            check_fragment("to_object_iter(&[u8]).nth", input, raw.as_bytes(), off_in(input, raw), &format!("nth({k})"))?;
+        }
+        if let Some(Ok((_, lv))) = sonic_rs::to_object_iter(&by).skip(k).next() {
+            check_fragment("to_object_iter(&Bytes).skip", input, lv.as_raw_str().as_bytes(), None, &format!("skip({k})"))?;
+        }
+        if let Some(Ok(lv)) = sonic_rs::to_array_iter(input).step_by(k + 1).nth(1) {
+            let raw = lv.as_raw_str();
+            check_fragment("to_array_iter(&[u8]).step_by", input, raw.as_bytes(), off_in(input, raw), &format!("step_by({}).nth(1)", k + 1))?;
+        }
+    }
+
     // checked iterators: every item is a sound fragment
     let mut n = 0;
     for item in sonic_rs::to_array_iter(input) {
@@ -310,7 +333,7 @@ pub fn oracle_raw(case: &[u8], obs: &mut Obs) -> Result<(), Fail> {
 }
 
 pub fn subs() -> Vec<Sub<'static>> {
-    let mut v: Vec<Sub<'static>> = ["mutated", "sweep", "long-numbers", "utf8-in-strings"].iter().map(|n| Sub { name: n, oracle: &oracle, minimise_bytes: false }).collect();
+    let mut v: Vec<Sub<'static>> = ["mutated", "sweep", "long-numbers", "utf8-in-strings", "raw-names"].iter().map(|n| Sub { name: n, oracle: &oracle, minimise_bytes: false }).collect();
     v.push(Sub { name: "fuzz-inputs", oracle: &oracle_raw, minimise_bytes: true });
     v
 }
@@ -428,6 +451,46 @@ pub fn run(ctx: &Ctx) {
             }
         }
         let paths = vec![vec![PathElem::Idx(0)], vec![PathElem::Idx(1)], vec![PathElem::Idx(2)], vec![PathElem::Key("k".into())], vec![PathElem::Key("j".into())]];
+        join_case(&d, &paths)
+    });
+    // member names whose escapes were replaced in place by the raw character they denote (a raw quote,
+    // line feed, tab, control character inside the name): the path still names the member by its decoded
+    // text, the document is malformed at that name
+    ctx.search(&subs[4], "raw-names", ctx.n(60_000, 600_000), 200, &|src: &mut Src| {
+        const NAMES: &[(&str, &[u8], &str)] = &[("a\\nb", b"a\nb", "a\nb"), ("x\\\"y", b"x\"y", "x\"y"), ("t\\tab", b"t\tab", "t\tab"), ("c\\u0001d", b"c\x01d", "c\u{1}d"), ("q\\\"", b"q\"", "q\""), ("\\n", b"\n", "\n"), ("e\\u0000", b"e\x00", "e\u{0}"), ("r\\rn", b"r\rn", "r\rn")];
+        let n = 1 + src.below(4);
+        let damaged = src.below(n);
+        let mut d = Vec::new();
+        let nested = src.bool();
+        if nested {
+            d.extend_from_slice(b"[1,");
+        }
+        d.push(b'{');
+        let mut paths = Vec::new();
+        for i in 0..n {
+            if i > 0 {
+                d.push(b',');
+            }
+            let (esc, raw, text) = NAMES[src.below(NAMES.len())];
+            d.push(b'"');
+            if i == damaged {
+                d.extend_from_slice(raw);
+            } else {
+                d.extend_from_slice(esc.as_bytes());
+            }
+            d.extend_from_slice(format!("{i}\":").as_bytes());
+            d.extend_from_slice(format!("[{i},{{\"v\":{i}}}]").as_bytes());
+            let key = format!("{text}{i}");
+            let mut p = if nested { vec![PathElem::Idx(1)] } else { vec![] };
+            p.push(PathElem::Key(key));
+            paths.push(p.clone());
+            p.push(PathElem::Idx(1));
+            paths.push(p);
+        }
+        d.push(b'}');
+        if nested {
+            d.push(b']');
+        }
         join_case(&d, &paths)
     });
     // systematic sweeps
